@@ -13,7 +13,7 @@ TUS = {
               "test/unit/tree/intrusive_ellenbintree_hp.cpp", "test/unit/intrusive-set/intrusive_feldman_hashset_hp.cpp",
               "test/unit/queue/msqueue_hp.cpp", "test/unit/stack/treiber_stack_hp.cpp", "test/unit/striped-set/intrusive_cuckoo_set.cpp",
               "test/unit/striped-set/set_std_set.cpp", "test/unit/queue/basket_queue_hp.cpp", "test/unit/queue/optimistic_queue_hp.cpp", "test/unit/intrusive-set/intrusive_split_michael_hp.cpp",
-              "test/unit/set/split_lazy_hp.cpp", "test/unit/set/split_iterable_hp.cpp"],
+              "test/unit/set/split_lazy_hp.cpp", "test/unit/set/split_iterable_hp.cpp", "test/unit/tree/bronson_avltree_map_rcu_gpb.cpp"],
     "thorough": ["test/unit/intrusive-list/*.cpp", "test/unit/intrusive-set/*.cpp", "test/unit/tree/intrusive_*.cpp", "test/unit/queue/*.cpp",
                  "test/unit/stack/*.cpp", "test/unit/striped-set/*.cpp", "test/unit/pqueue/*.cpp"],
 }
@@ -48,5 +48,64 @@ def r20_3(ctx):
 r20_3.rule_id = "R20.3"
 
 
-RULES = [r20_1, r20_2, r20_3]
-FLOORS = {"R20.1": 200, "R20.2": 100, "R20.3": 20}
+def r20_4(ctx):
+    """BronsonAVLTreeMap result codes (its internal operations return update_flags instead of bool / pair): a path that reports 'inserted'
+    changed the counter exactly once upwards and was allowed to insert (allow_insert tested true on the path, or - for members without a flags
+    parameter - at every call site); 'removed' decrements once; failed / retry / updated leave the counter alone"""
+    import re as _re
+    from sa.pathsim import PathSim, C
+    from sa.cfg import PathBoundExceeded
+    from sa.q import cond_atoms
+    INS, UPD, REM = C(1), C(2), C(4)
+    n = 0
+    need_site_gate = set()
+    fs = [F for F in ctx.db.funcs.values() if F.q.startswith("cds::container::BronsonAVLTreeMap::") and (F.ret or "").strip() == "int"]
+    for F in fs:
+        flags = [("p", pr["d"], pr["n"]) for pr in F.params if pr["n"] == "nFlags"]
+        try:
+            ps = PathSim(F, bound=6000).run()
+        except PathBoundExceeded:
+            continue
+        for p in ps:
+            if p.outcome != "return" or not (isinstance(p.ret, tuple) and p.ret[:1] == ("c",)):
+                continue
+            ev = p.events
+            # correlated reads of one node's value: is_valued() true and value() == nullptr on the same path is infeasible (same field, node locked)
+            valued = [tv for a, tv, b in cond_atoms(p) if isinstance(a, tuple) and a[:1] == ("call",) and str(a[1]).endswith("::is_valued")]
+            isnull = [tv for a, tv, b in cond_atoms(p) if isinstance(a, tuple) and a[:1] == ("call",) and str(a[1]).endswith("::value") and tv is False]
+            if valued and valued[-1] is True and isnull:
+                continue
+            inc = [e for e in ev if e.kind == "call" and e.q and _re.search(r"item_counter::operator\+\+$", e.q)]
+            dec = [e for e in ev if e.kind == "call" and e.q and _re.search(r"item_counter::operator--$", e.q)]
+            n += 1
+            if p.ret == INS:
+                ctx.check(len(inc) == 1 and not dec, "R20.4", F, "a path reporting 'inserted' increments the item counter exactly once", None,
+                          detail="increments: %d, decrements: %d. %s" % (len(inc), len(dec), R), sig="inserted-counts")
+                if flags:
+                    gate = any(isinstance(a, tuple) and a[:2] == ("op", "&") and flags[0] in a[2:4] and C(1) in a[2:4] and tv for a, tv, b in cond_atoms(p))
+                    ctx.check(gate, "R20.4", F, "a path reporting 'inserted' established that insertion is allowed (nFlags & allow_insert)", None,
+                              detail="update( key, ..., bInsert = false ) must not add a key: a routing node (erased key that kept its place) counts as absent. " + R,
+                              sig="inserted-allowed")
+                else:
+                    need_site_gate.add(F.m)
+            elif p.ret == REM:
+                ctx.check(len(dec) == 1 and not inc, "R20.4", F, "a path reporting 'removed' decrements the item counter exactly once", None, detail=R, sig="removed-counts")
+            else:
+                ctx.check(not inc and not dec, "R20.4", F, "a path reporting failed / retry / updated leaves the item counter alone", None, detail=R, sig="other-no-count")
+    for G in fs:
+        for p in PathSim(G, bound=6000).run() if any(e.get("k") == "call" and e.get("m") in need_site_gate for _, _, e in G.all_elements()) else []:
+            flags = [("p", pr["d"], pr["n"]) for pr in G.params if pr["n"] == "nFlags"]
+            for e in p.events:
+                if e.kind == "call" and e.node is not None and e.node.get("m") in need_site_gate:
+                    n += 1
+                    i = p.events.index(e)
+                    gate = bool(flags) and any(isinstance(a, tuple) and a[:2] == ("op", "&") and flags[0] in a[2:4] and C(1) in a[2:4] and tv and p.events.index(b) < i
+                                               for a, tv, b in cond_atoms(p))
+                    ctx.check(gate, "R20.4", G, "an inserting helper without a flags parameter is called only where insertion is allowed", e.node, detail=R, sig="insert-helper-gated")
+    if n < 10:
+        ctx.broken("Bronson result-code paths not found (%d)" % n)
+r20_4.rule_id = "R20.4"
+
+
+RULES = [r20_1, r20_2, r20_3, r20_4]
+FLOORS = {"R20.1": 200, "R20.2": 100, "R20.3": 20, "R20.4": 10}
